@@ -11,6 +11,7 @@ namespace Sqlframe
 open Gen
 
 def Step.isOrderBy : Step → Bool | .orderBy _ => true | _ => false
+def Step.isDropna : Step → Bool | .dropna _ _ _ => true | _ => false
 
 /-- no `orderBy` directly follows an `orderBy` -/
 def noAdjacentOrderBy : List Step → Bool
@@ -43,7 +44,6 @@ def StepsWF (T : Table) : List Step → Prop
 
 /-- steps covered by `C01_partial` (the others are only compared executably: implementation vs `specStep`) -/
 def Step.inTheorem : Step → Bool
-  | .dropna _ _ _ => false
   | .unpivot _ _ _ _ => false
   | _ => true
 
